@@ -263,12 +263,19 @@ func (bf *BlockFetcher) VerifC17Clone(rq component.IComponentRequester) *BlockFe
 	for e := bf.peers.badPeers.Front(); e != nil; e = e.Next() {
 		n.peers.badPeers.PushBack(cp(e.Value.(*SyncPeer)))
 	}
+	tm := map[*FetchTask]*FetchTask{} // pointer identity is preserved across the queues
 	cq := func(dst, src *list.List) {
 		dst.Init()
 		for e := src.Front(); e != nil; e = e.Next() {
-			t := *e.Value.(*FetchTask)
-			t.syncPeer = cp(t.syncPeer)
-			dst.PushBack(&t)
+			o := e.Value.(*FetchTask)
+			t, ok := tm[o]
+			if !ok {
+				c := *o
+				c.syncPeer = cp(o.syncPeer)
+				t = &c
+				tm[o] = t
+			}
+			dst.PushBack(t)
 		}
 	}
 	cq(&n.runningQueue.List, &bf.runningQueue.List)
@@ -283,14 +290,22 @@ func (bf *BlockFetcher) VerifC17Clone(rq component.IComponentRequester) *BlockFe
 	op := bf.blockProcessor
 	np := &BlockProcessor{compRequester: rq, blockFetcher: n, prevBlock: op.prevBlock, curBlock: op.curBlock,
 		targetBlockNo: op.targetBlockNo, name: op.name}
-	if op.curConnRequest != nil {
-		c := *op.curConnRequest
-		np.curConnRequest = &c
+	cm := map[*ConnectTask]*ConnectTask{}
+	cc := func(o *ConnectTask) *ConnectTask {
+		if o == nil {
+			return nil
+		}
+		if c, ok := cm[o]; ok {
+			return c
+		}
+		c := *o
+		cm[o] = &c
+		return &c
 	}
+	np.curConnRequest = cc(op.curConnRequest)
 	np.connQueue = make([]*ConnectTask, 0, 16)
 	for _, c := range op.connQueue {
-		cc := *c
-		np.connQueue = append(np.connQueue, &cc)
+		np.connQueue = append(np.connQueue, cc(c))
 	}
 	n.blockProcessor = np
 	return n
